@@ -14,6 +14,12 @@ use rml_rtmp::sessions::{PublishMode, ServerSessionEvent};
 use serde_json::{json, Value};
 use std::collections::{BTreeMap, BTreeSet};
 
+/// Names chosen so that trimming, case folding, truncation at NUL, query-string stripping or percent
+/// decoding anywhere between the request and the event/command that carries them would be visible.
+pub const APP_A: &str = "A pp";
+pub const KEY1: &str = "K1 ?a=b&c%20 ";
+pub const KEY2: &str = " k\u{e9}\u{0}2";
+
 #[derive(Clone, Debug, PartialEq, Eq, Hash)]
 pub enum Req {
     Connect { app: String, tx: u64 },
@@ -475,19 +481,19 @@ pub fn actions_for(m: &ServerModel, max_streams: usize, max_outstanding: usize, 
     sids.push(0);
     sids.push(99);
     if m.out.len() < max_outstanding {
-        acts.push(SAct::Connect { tx: 1.0, app: "a".into() });
+        acts.push(SAct::Connect { tx: 1.0, app: APP_A.into() });
         if extended {
             acts.push(SAct::Connect { tx: 5.0, app: "b/".into() });
         }
         for &sid in sids.iter() {
-            acts.push(SAct::Publish { sid, key: "k1".into(), mode: "live".into() });
-            acts.push(SAct::Play { sid, key: "k2".into() });
+            acts.push(SAct::Publish { sid, key: KEY1.into(), mode: "live".into() });
+            acts.push(SAct::Play { sid, key: KEY2.into() });
             if extended && sid != 99 {
-                acts.push(SAct::Publish { sid, key: "k2".into(), mode: "Record".into() });
+                acts.push(SAct::Publish { sid, key: KEY2.into(), mode: "Record".into() });
             }
         }
     }
-    acts.push(SAct::Publish { sid: *live_sids.first().unwrap_or(&0), key: "k1".into(), mode: "bogus".into() });
+    acts.push(SAct::Publish { sid: *live_sids.first().unwrap_or(&0), key: KEY1.into(), mode: "bogus".into() });
     acts.push(SAct::ConnectMalformed { shape: 0 });
     if extended {
         acts.push(SAct::ConnectMalformed { shape: 1 });
@@ -621,17 +627,17 @@ pub fn run(run: &Run) {
     let mut reports = Vec::new();
     let (mut ts, mut tt, mut ti) = (0u64, 0u64, 0u64);
     // (name, prefix, depth, extended alphabet)
-    let connect = vec![SAct::Connect { tx: 1.0, app: "a".into() }, SAct::Accept { id: 0 }];
+    let connect = vec![SAct::Connect { tx: 1.0, app: APP_A.into() }, SAct::Accept { id: 0 }];
     let mut one_stream = connect.clone();
     one_stream.push(SAct::CreateStream { tx: 2.0 });
     let mut two_streams = one_stream.clone();
     two_streams.push(SAct::CreateStream { tx: 7.0 });
     let mut publishing = one_stream.clone();
-    publishing.extend(vec![SAct::Publish { sid: 1, key: "k1".into(), mode: "live".into() }, SAct::Accept { id: 1 }]);
+    publishing.extend(vec![SAct::Publish { sid: 1, key: KEY1.into(), mode: "live".into() }, SAct::Accept { id: 1 }]);
     let mut playing_and_publishing = two_streams.clone();
     playing_and_publishing.extend(vec![
-        SAct::Publish { sid: 1, key: "k1".into(), mode: "live".into() }, SAct::Accept { id: 1 },
-        SAct::Play { sid: 2, key: "k2".into() }, SAct::Accept { id: 2 },
+        SAct::Publish { sid: 1, key: KEY1.into(), mode: "live".into() }, SAct::Accept { id: 1 },
+        SAct::Play { sid: 2, key: KEY2.into() }, SAct::Accept { id: 2 },
     ]);
     let mut after_delete = two_streams.clone();
     after_delete.push(SAct::DeleteStream { sid: 1 });
